@@ -23,6 +23,7 @@ Reading guide.
 import Ymq.Lemmas.KroneckerModel
 import Ymq.Lemmas.FIntRoot
 import Ymq.Lemmas.CrtLemmas
+import Ymq.Lemmas.PolyDft
 
 namespace Ymq.C10
 open Ymq.PolySpec
@@ -304,6 +305,30 @@ theorem root_pow (N k : Nat) (hdvd : 2 ^ k ∣ 256 * N) : root N k ^ 2 ^ k ≡ 1
 
 example : (2 : Nat) ^ 12 = 256 * 16 ∧ 128 * 4095 * 16 < 2 ^ 32 := by decide
 
+/-- the twiddle root is PRINCIPAL: `ω^(2^(k-1)) ≡ -1 (mod F)` for `k ≥ 1`, `2^k ∣ 256N` — the
+hypothesis of `dft_conv` for the Fermat transform. -/
+theorem root_half (N k : Nat) (hk : 0 < k) (hdvd : 2 ^ k ∣ 256 * N) :
+    root N k ^ 2 ^ (k - 1) + 1 ≡ 0 [MOD Fmod N] := by
+  unfold root
+  have he : 256 * N / 2 ^ k * 2 ^ (k - 1) = 2 * (64 * N) := by
+    obtain ⟨c, hc⟩ := hdvd
+    have hp : 0 < 2 ^ k := Nat.pow_pos (by decide)
+    have h2 : 2 ^ k = 2 ^ (k - 1) * 2 := by rw [← pow_succ]; congr 1; omega
+    rw [hc, Nat.mul_div_cancel_left _ hp]
+    have : 2 * (c * 2 ^ (k - 1)) = 2 * (128 * N) := by
+      calc 2 * (c * 2 ^ (k - 1)) = 2 ^ (k - 1) * 2 * c := by ring
+        _ = 2 ^ k * c := by rw [← h2]
+        _ = 256 * N := hc.symm
+        _ = 2 * (128 * N) := by ring
+    omega
+  rw [← pow_mul, he]
+  have h1 := (sqrt2_pow_even N (64 * N)).add_right 1
+  refine h1.trans ?_
+  have : 2 ^ (64 * N) + 1 = Fmod N := by
+    unfold Fmod; rw [show W = 2 ^ 64 by decide, ← pow_mul]
+  rw [this]
+  exact Nat.modEq_zero_iff_dvd.2 (dvd_refl _)
+
 end FIntSpecs
 
 /-! ## Residue number system `MultiZmodP` -/
@@ -353,6 +378,50 @@ theorem crt_q_estimate_partial {w : Nat} (P q V M hi Wd : Nat) (xs c : Fin w →
 
 example : (0 : Nat) < 1 ∧ 2 * 1 + 3 ≤ 5 := by decide
 
+/-- **The table `NTT_PRIMES`** (translated from the source on every run): the moduli are pairwise
+coprime (hypothesis of `crt_unique`), each is `≡ 1 (mod 2^49)` and lies in `(2^58, 2^59)`,
+`p·(p-2) ≡ -1 (mod 2^64)` (the constant `p - 2` passed to `mg_mul` by `mg_mul64`), and the listed
+element `g` satisfies `g^(2^31) ≡ -1 (mod p)`: it has order exactly `2^32` and `g^(2^(32-k))`, the
+root built by `MultiZmodP::new`, is a principal `2^k`-th root of unity (hypothesis of `dft_conv`). -/
+theorem ntt_table_ok :
+    Ymq.Gen.Params.NTT_PRIME_VALUES.Pairwise Nat.Coprime ∧
+    ∀ r ∈ Ymq.Gen.Params.NTT_PRIMES, r.1 % 2 ^ 49 = 1 ∧ 2 ^ 58 < r.1 ∧ r.1 < 2 ^ 59 ∧
+      (r.1 * (r.1 - 2) + 1) % 2 ^ 64 = 0 ∧ r.2 ^ 2 ^ 31 % r.1 = r.1 - 1 := by
+  refine ⟨Ymq.Crt.primes_coprime, fun r hr => ?_⟩
+  obtain ⟨h1, h2, h3, h4, h5⟩ := Ymq.Crt.rows_ok r hr
+  exact ⟨h1, h2, h3, h4, by rw [← Ymq.Crt.sqIter_eq]; exact h5⟩
+
 end CrtSpecs
+
+/-! ## The transform (stretch goal `dft_conv`) -/
+
+section Transform
+open Ymq.Dft
+
+/-- **`dft_conv`.** In any commutative ring, for a root with `ω^(2^(k-1)) = -1` (a principal
+`2^k`-th root of unity; `ω = 1` for `k = 0`) and `ω·ω' = 1`:
+(1) the radix-2 recursion of `arith_fft::fft` / `MultiZmodP::ntt_inplace` (`fftRec`: transform even
+and odd entries with `ω²`, twiddle the odd half by `ω^j`, butterfly) computes the DFT
+`Σ_i f i·ω^(ij)`;
+(2) transforming again with the inverse root gives `2^k·f` (the code's inverse direction divides by
+`2^k`: `shr` / `div_pow2`);
+(3) forward transforms, pointwise product, inverse transform = `2^k` times the cyclic convolution
+(`mulfft`, `convolve_modn_ntt`).
+This is a statement about the algebraic recursion; its instantiation by the word-level `fft`
+model (`Ymq.FInt.fft`, hypothesis `ExactCyc` of `kronecker_cyclic`) goes through `FInt::mul`, whose
+Karatsuba routine is tied to the specification by K/O only. `root_half` shows that the code's
+twiddle root meets the hypothesis. -/
+theorem dft_conv {R : Type*} [CommRing R] (k : Nat) (ω ω' : R)
+    (hω : k = 0 ∨ ω ^ 2 ^ (k - 1) = -1) (h0 : k = 0 → ω = 1) (hinv : ω * ω' = 1) (f g : Nat → R) :
+    (∀ j < 2 ^ k, fftRec k ω f j = dft (2 ^ k) ω f j) ∧
+    (∀ m < 2 ^ k, dft (2 ^ k) ω' (dft (2 ^ k) ω f) m = (2 ^ k : R) * f m) ∧
+    (∀ m < 2 ^ k, fftRec k ω' (fun j => fftRec k ω f j * fftRec k ω g j) m =
+      (2 ^ k : R) * cyc (2 ^ k) f g m) :=
+  ⟨fun j hj => fftRec_eq_dft k ω hω f j hj, fun m hm => dft_inverse k ω ω' hω hinv f m hm,
+   fun m hm => fft_mul_eq_cyc k ω ω' hω h0 hinv f g m hm⟩
+
+example : (1 = 0 ∨ (-1 : ℤ) ^ 2 ^ (1 - 1) = -1) ∧ (-1 : ℤ) * (-1) = 1 := by decide
+
+end Transform
 
 end Ymq.C10
